@@ -1,6 +1,7 @@
 package mon
 
 import (
+	"runtime"
 	"fmt"
 	"math/rand"
 	"strings"
@@ -121,6 +122,33 @@ func runC02(c *core.Ctx) {
 		if p := core.Try(func() { anyAfter = errors.IsAny(eh, refs...) }); p != nil || anyAfter != anyBefore {
 			c.Violate("isany/e-transferred", "IsAny changed after transfer", fmt.Sprintf("%s\nhistory %s: before %v after %v (%v)", t, h.name, anyBefore, anyAfter, p))
 		}
+	}
+	// e arrives from a sender on ANOTHER PLATFORM (its errnos stay opaque at the receiver), directly and relayed
+	if t.HasKind("errno") {
+		core.Try(func() {
+			archs := []string{"plan9:mips", runtime.GOOS + ":mips64", "windows:" + runtime.GOARCH}
+			enc := errors.EncodeError(sim.Ctx, e)
+			if rewriteArch(&enc, archs[c.Case%len(archs)], int64(c.Case%2)*1000) == 0 {
+				return
+			}
+			cur := sim.DecBytes(sim.Marshal(enc))
+			for hop := 1; hop <= 2; hop++ {
+				c.Cover("history-e", fmt.Sprintf("foreign-platform-sender.hop%d", hop))
+				for i, r := range w.Refs {
+					c.Count("pairs-e-transferred", 1)
+					if got, p := safeIs(cur, r.Err); p != nil {
+						c.Violate("is-panic/e-from-foreign-platform", "Is panicked after transfer", fmt.Sprintf("%s\n%s: %v", t, describe(r), p))
+					} else if got != before[i] && (!before[i] || r.Origin == "sentinel" && !strings.Contains(r.Fam, "syscall.Errno")) {
+						// (an errno of another platform is deliberately NOT identified with the local errno of the
+						// same name: positive answers against locally built references carry no obligation; the
+						// sentinels it matched at its origin do, and so does every negative answer)
+						c.Violate(fmt.Sprintf("e-from-foreign-platform/before=%v/%s", before[i], famShort(r.Fam)), "Is(e,r) changed after e arrived from a sender on another platform",
+							fmt.Sprintf("%s\nhop %d\n%s\nbefore %v after %v", t, hop, describe(r), before[i], got))
+					}
+				}
+				cur, _ = sim.Hop(cur)
+			}
+		})
 	}
 	// r transferred, and both
 	// The unknowing *observer* runs the same library but does not know
